@@ -68,6 +68,14 @@ class StateMeta(type):
 
         attributes: dict[str, StateAttribute[Any]] = {}
 
+        # subclass of a parametrized state keeps type parameters of its bases
+        type_parameters = {
+            key: value
+            for base in reversed(bases)
+            for key, value in getattr(base, "__TYPE_PARAMETERS__", {}).items()
+        } | (type_parameters or {})
+        state_type.__TYPE_PARAMETERS__ = type_parameters  # pyright: ignore[reportAttributeAccessIssue]
+
         if bases:  # handle base class
             for key, annotation in attribute_annotations(
                 state_type,
